@@ -87,7 +87,7 @@ Definition l_sidx (v : Z) (count : nat) : list fld :=
 Definition l_saiz (flags : Z) (listed : nat) : list fld :=
   full (opt flags 1 (FU 4) ++ opt flags 1 (FU 4) ++ [FU 1; FU 4] ++ rep listed [FU 1]).
 
-(* box type codes used by the runner: 0 mdhd 1 mvhd 2 tkhd 3 mehd 4 tfdt 5 mfhd 6 trex 7 tfhd 8 trun 9 saio 10 tenc 11 pssh 12 sidx 13 saiz *)
+(* box type codes used by the runner: 0 mdhd 1 mvhd 2 tkhd 3 mehd 4 tfdt 5 mfhd 6 trex 7 tfhd 8 trun 9 saio 10 tenc 11 pssh 12 sidx 13 saiz 14 btrt 15 pasp 16 frma 17 schm 18 senc 19 emsg 20 hdlr 21 ftyp/styp *)
 (* sample-entry children and protection boxes *)
 Definition l_btrt : list fld := [FU 4; FU 4; FU 4].
 Definition l_pasp : list fld := [FU 4; FU 4].
@@ -108,10 +108,45 @@ Fixpoint l_senc_samples (flags : Z) (iv : nat) (counts : list (option nat)) : li
 Definition l_senc (flags : Z) (iv : nat) (counts : list (option nat)) : list fld :=
   full (opt flags 1 (FB 3) ++ opt flags 1 (FU 1) ++ opt flags 1 (FB 16) ++ [FU 4] ++ l_senc_samples flags iv counts).
 
+(* ---- strings and brand lists.  'S0' fields are NUL-terminated: cstr_len is the length INCLUDING the terminator,
+   found from the bytes themselves (None: no terminator before the end of the data) *)
+Fixpoint cstr_len (bs : bytes) : option nat :=
+  match bs with
+  | [] => None
+  | b :: r => if b =? 0 then Some 1%nat else match cstr_len r with Some n => Some (S n) | None => None end
+  end.
+(* hdlr: pre_defined, handler type, 12 reserved bytes, the name up to the end of the box *)
+Definition l_hdlr (namelen : nat) : list fld := full [FU 4; FB 4; FB 12; FB namelen].
+(* ftyp / styp (not full boxes): major brand, minor version, compatible brands *)
+Definition l_ftyp (brands : nat) : list fld := [FB 4; FU 4] ++ rep brands [FB 4].
+(* emsg: version 0 puts the two strings first and a 32-bit presentation time DELTA; version 1 puts them last and has a
+   64-bit presentation TIME; any other version has only message data *)
+Definition l_emsg (v : Z) (uri value data : nat) : list fld :=
+  full (if v =? 0 then [FB uri; FB value; FU 4; FU 4; FU 4; FU 4; FB data]
+        else if v =? 1 then [FU 4; FU 8; FU 4; FU 4; FB uri; FB value; FB data]
+        else [FB data]).
+(* the layout of an emsg payload found from its own bytes: where the strings end decides where the numbers / data start *)
+Definition emsg_layout (payload : bytes) : option (list fld) :=
+  match payload with
+  | [] => None
+  | v :: _ =>
+      if (v =? 0) || (v =? 1) then
+        let strs := if v =? 0 then skipn 4 payload else skipn 24 payload in
+        match cstr_len strs with
+        | Some u => match cstr_len (skipn u strs) with
+                    | Some w => Some (l_emsg v u w (length payload - (if v =? 0 then 20 else 24) - u - w))
+                    | None => None
+                    end
+        | None => None
+        end
+      else Some (l_emsg v 0 0 (length payload - 4))
+  end%bool.
+
 Definition layout_of (t version flags : Z) (n1 n2 : nat) : list fld :=
   if t =? 0 then l_mdhd version else if t =? 1 then l_mvhd version else if t =? 2 then l_tkhd version
   else if t =? 3 then l_mehd version else if t =? 4 then l_tfdt version else if t =? 5 then l_mfhd
   else if t =? 6 then l_trex else if t =? 7 then l_tfhd flags else if t =? 8 then l_trun flags n1
   else if t =? 9 then l_saio version flags n1 else if t =? 10 then l_tenc else if t =? 12 then l_sidx version n1
   else if t =? 13 then l_saiz flags n1 else if t =? 14 then l_btrt else if t =? 15 then l_pasp else if t =? 16 then l_frma
-  else if t =? 17 then l_schm flags n1 else l_pssh version n1 n2.
+  else if t =? 17 then l_schm flags n1 else if t =? 20 then l_hdlr n1 else if t =? 21 then l_ftyp n1
+  else l_pssh version n1 n2.
